@@ -1,13 +1,10 @@
 (* _get_backends_to_uris: the request URIs are partitioned by owning backend. *)
 From Coq Require Import ZArith List Bool Lia Arith.
 From Common Require Import Res.
-From Routing Require Import Model Proofs_Tables.
+From Routing Require Import Model Scheme Obs Spec Proofs_Tables.
 Import ListNotations.
 Open Scope Z_scope.
 
-(* does the table route URI u to backend b? *)
-Definition own (t : table) (b : nat) (u : uri) : bool :=
-  match tget t (u_scheme u) with Some b' => Nat.eqb b' b | None => false end.
 
 Fixpoint gget (b : nat) (g : groups) : option (list uri) :=
   match g with
